@@ -1,7 +1,7 @@
 #!/bin/bash
 # usage: seedconfirm5.sh <scratch-worktree> <seed-out-dir> <demo-dest-dir> : confirm a seeded change in a scratch worktree:
 # builds, demo passes without / fails with the patch, existing tests of the touched packages pass with it. Prints one JSON line.
-export GOFLAGS=-mod=mod GOPROXY=off GOSUMDB=off GOTOOLCHAIN=local
+export GOFLAGS="-mod=mod $EXTRA_GOFLAGS" GOPROXY=off GOSUMDB=off GOTOOLCHAIN=local
 W=$1; O=$2; DEST=$3; RUN=${4:+-run $4}
 cd $W; git checkout -q -- .; git clean -fdq
 demos=$(ls $O/*_test.go 2>/dev/null)
